@@ -180,7 +180,8 @@ func c18Capture(c *fw.Ctx, _ int) {
 		case 1:
 			off, ocl = int64(r.Pick(1, -1, 2, -2, 999999999, -999999999, 1000000000, -1000000000, 1000000001, -1000000001)), "tiny"
 		case 2:
-			off, ocl = (lim*1e9-1)*int64(r.Pick(1, -1)), "extreme"
+			// the last two seconds below 2^31 s with every kind of sub-second part (and the very last nanosecond)
+			off, ocl = (lim*1e9-1-int64(r.Pick(0, 0, 1, 250000000, 500000000, 999999999, 1000000000, r.Intn(2000000000), r.Intn(2000000000))))*int64(r.Pick(1, -1)), "extreme"
 		case 3:
 			off, ocl = (int64(r.U64()%uint64(lim)))*1e9*int64(r.Pick(1, -1))+int64(r.Range(-2, 2)), "whole-second"
 		case 4:
